@@ -389,17 +389,13 @@ func c03R4(r *Report, c *pieceCtx) {
 	if r.Anchor("R4", "tor.(*Torrent).run", run != nil) {
 		r.Fn(run)
 		ok := false
-		allInstrs(run, func(in ssa.Instruction) {
-			dd, isd := in.(*ssa.Defer)
-			if !isd {
-				return
-			}
-			if f := deferredFunc(dd); f != nil && anyInstr(f, func(i ssa.Instruction) bool { return calleeOf(i) == Del }) != nil {
-				if dom, _ := deferDominatesReturns(dd); dom {
+		for _, a := range exitActions(run) {
+			if a.Callee == Del {
+				if dom, _ := deferDominatesReturns(a.Defer); dom {
 					ok = true
 				}
 			}
-		})
+		}
 		r.Check(ok, "R4", "Torrent.run/defer-Pieces.Del", run.Pos(), "the torrent loop frees its store on every exit", "no deferred function of run that dominates every return calls Pieces.Del")
 	}
 	calls, _ := p.callSitesOf(Del)
